@@ -149,7 +149,7 @@ func keyCmpEdge(fs *FuncSrc, cond ast.Expr, truth bool) []string {
 	return []string{condLabel(cond, truth)}
 }
 
-var condByPos = map[token.Pos]ast.Expr{}
+var condByPos = map[string]ast.Expr{}
 
 // condLabel is the generic branch fact "@cond:T|F:<pos>:<text>"; the expression is
 // remembered so that rules can evaluate it instead of looking at its text.
@@ -158,7 +158,7 @@ func condLabel(cond ast.Expr, truth bool) string {
 	if !truth {
 		t = "F"
 	}
-	condByPos[cond.Pos()] = cond
+	condByPos[fmt.Sprintf("%d:%s", cond.Pos(), exprStr(cond))] = cond
 	return fmt.Sprintf("@cond:%s:%d:%s", t, cond.Pos(), exprStr(cond))
 }
 
@@ -191,7 +191,7 @@ func condFactsOf(s Set, within ast.Node) []brFact {
 		if within != nil && (token.Pos(pos) < within.Pos() || token.Pos(pos) > within.End()) {
 			continue
 		}
-		e := condByPos[token.Pos(pos)]
+		e := condByPos[parts[2]+":"+parts[3]]
 		if e == nil {
 			continue
 		}
